@@ -52,7 +52,7 @@ class C10(Property):
     assumptions = ["engine protocol (HistoryOk): a notification never moves a non-occupying job to FIREABLE/RUNNING; a job is re-allocated "
                    "only while not occupying", "levels of the selected locations are distinct locations (no two available locations of a "
                    "target stacked on the same inner location)", "amounts are exact rationals"]
-    quick_budget_s = 300
+    quick_budget_s = 600
 
     def explore(self, ctx: Ctx) -> None:
         schedprop.explore(ctx, self.pid)
